@@ -12,6 +12,16 @@ NOTE = ("Trusted base: go/packages + go/types + go/ssa of golang.org/x/tools v0.
 
 # id -> (technique, text)
 CLAIMED = {
+ 'C07': ("static analysis: ordered/ok-dominance rules, lock-hold atomicity, provenance of acknowledged sequences, ownership-closed call chains and a freeze-before-metadata-flush chain rule over go/ssa",
+         "Decides on every path: acks only from the post-commit callback with the committed capture (or the recovered persisted sequence at registration); freeze and sequence capture in one critical "
+         "section, exactly that capture committed in the table's edit log and later promoted to persistSeq; replay validated strictly, rows before the deferred sequence commit; recovered families seed both "
+         "sequence maps from the manifest; replay resumes at ack+1; consumer-group acks reachable only via the callback and the ack+1-guarded ignore; every call chain to a data flush closed by ownership and "
+         "ordered meta->wait->index->wait->data; and the freeze must precede the metadata flush covering it - today's tree violates that on one chain, recorded as known finding F8."),
+ 'C09': ("static analysis: get-or-create discipline (re-check under the inserting lock, generator only on miss edges, mutate the container's object), generator ownership, flush-order and prepare/clear guards, counter-file layout agreement",
+         "Decides the structure that makes ID assignment atomic and recoverable for all interleavings and crash points: creators re-check memory (and the persisted store after an intervening flush) under the write "
+         "lock that guards the insert, generate only on miss edges inside that hold, and mutate the schema object resolved from the container; generators are referenced only by creators and each is one atomic "
+         "increment; lookups consult mutable, immutable and persisted data before creating; counters are synced before dictionaries and postings before the series dictionary; prepare-flush swaps only onto an empty "
+         "immutable; immutable is cleared only after a successful commit (new snapshot in the same hold); counter file writer/reader agree per role; plus the F8 freeze rule shared with C07 (known finding)."),
  'C19': ("static analysis: exactly-once path rules (PASS), CAS-guard facts, ownership of the callback/response call sites, error-flow (latch) rule over go/ssa",
          "Decides the skeleton that exactly-once completion with error propagation rests on, for every stage tree and completion order at once: pending++ before execution and before the parent's "
          "(non-deferred) completion; exactly one of complete/error handler per stage path, the pooled task's panic handler being the error handler and the pool's recover block calling it; "
